@@ -1,7 +1,13 @@
 package iterators
 
+import "math"
+
 // Until will iterate up to, but not including `a`
+//
 //	Until(3) // 0,1,2
 func Until(a int) Iterator {
-	return &ranger{pos: -1, end: a - 1}
+	if a == math.MinInt {
+		return &ranger{done: true}
+	}
+	return &ranger{pos: 0, end: a - 1}
 }
